@@ -463,7 +463,9 @@ class Dumper:
         g = type(j).get_sql
         need(isinstance(j.how, E.JoinType), "join type")
         # JoinType has aliases by value (outer/full_outer): use the name that was declared
-        how = JOINT[[n for n, m in E.JoinType.__members__.items() if m is j.how][0]]
+        hname = [n for n, m in E.JoinType.__members__.items() if m is j.how][0]
+        need(hname in JOINT, "join type %s outside the model" % hname)
+        how = JOINT[hname]
         if g is Q.JoinOn.get_sql:
             need(j.collate is None or isinstance(j.collate, str), "collate")
             return "(JOn %s %s %s %s)" % (self.term(j.item), how, self.term(j.criterion), copt(j.collate))
@@ -479,6 +481,7 @@ class Dumper:
         ops = "SNil"
         for op, q in reversed(list(s._set_operation)):
             need(isinstance(op, E.SetOperation), "set operator")
+            need(op.name in SETOP, "set operator %s outside the model" % op.name)
             ops = "(SCons %s %s %s)" % (SETOP[op.name], self.term(q), ops)
         need(s.alias is None or isinstance(s.alias, str), "setop alias")
         if s._orderbys:
